@@ -51,6 +51,9 @@ type Cluster struct {
 	Log     []*Req
 	// FailMut[k]: reject the mutating request with index k (no effect on the store). FailSeq likewise by global sequence.
 	FailMut map[int]bool
+	// Manifests: the harness's store of built manifests for one history (not part of the cluster; kept here because the cluster is what
+	// the runs of a history share)
+	Manifests map[string]*unstructured.Unstructured
 	FailCode  int               // HTTP status of injected faults: 0/500 InternalError, 403 Forbidden, 422 Invalid, 409 AlreadyExists (creates of non-Namespace kinds only, else 500)
 	// FailReq: a read request for which it returns true is rejected (evaluated in begin, store lock held)
 	FailReq func(r *Req) bool
